@@ -79,3 +79,25 @@ def linger(seconds: float) -> int:
     import time
     threading.Thread(target=time.sleep, args=(seconds,)).start()
     return 7
+
+
+def _touch(flag: str) -> None:
+    with open(flag, 'w') as f:
+        f.write('1')
+
+
+def ignore_term_return(flag: str, t: float) -> str:
+    """ignores SIGTERM, tells the parent so (creates the file `flag` in the common working directory), and returns normally `t` s later"""
+    signal.signal(signal.SIGTERM, signal.SIG_IGN)
+    logging.getLogger('nlv.c17.child').info('ignoring SIGTERM')
+    _touch(flag)
+    time.sleep(t)
+    return 'done'
+
+
+def flag_then_return(flag: str, t: float) -> str:
+    """tells the parent that it is about to return (creates the file `flag`), and returns normally `t` s later"""
+    logging.getLogger('nlv.c17.child').info('about to return')
+    _touch(flag)
+    time.sleep(t)
+    return 'done'
